@@ -144,6 +144,13 @@ def compare_layouts(m, chunk):
                             prob = "correct_increments on a Series row differs"
                     if list(par.data_frame.columns) != names or (nS and not np.array_equal(par.data_frame.iloc[-1].values, x)):
                         prob = "simulator parameter table columns/values %s differ from estimator states %s" % (list(par.data_frame.columns), names)
+                    # the same at the ppm level (navigation-grade sensors): parameters 2^-14 times smaller
+                    if not prob:
+                        xs = x * 2.0 ** -14
+                        par_s = IS.Parameters(transform=np.eye(3) + (T - np.eye(3)) * 2.0 ** -14, bias=bvec * 2.0 ** -14)
+                        par_s.apply(df, stype)
+                        if list(par_s.data_frame.columns) != names or (nS and not np.allclose(par_s.data_frame.iloc[-1].values, xs, rtol=1e-9, atol=0)):
+                            prob = "ppm-level parameters: simulator parameter table columns %s differ from estimator states %s" % (list(par_s.data_frame.columns), names)
         # simulator naming for the raw pattern (also for rejected masks: the simulator accepts walk without bias)
         if prob is None:
             par = IS.Parameters(transform=np.eye(3) + np.array([[P_SM[o][i] / 1024.0 if b["sm"][o][i] else 0.0 for i in range(3)] for o in range(3)]),
